@@ -28,6 +28,8 @@ struct Ctx {
   int ncommon_avail = 0;        // common expressions that may be referenced
   double next_tag;
   double tag() { next_tag += 1; return next_tag; }
+  std::vector<Expr> pool;       // subexpressions generated so far for the items that share nl_vars: reused now and then, so that
+                                // several constraints contain the same subexpression (one shared functional constraint after flattening)
 };
 
 Expr gen_log(Ctx& c, int depth);
@@ -56,7 +58,14 @@ Expr affine(Ctx& c) {
   return Expr::Op(0, {t, Expr::Num(b)});
 }
 
+Expr gen_num_raw(Ctx& c, int depth);
 Expr gen_num(Ctx& c, int depth) {
+  if (depth > 0 && !c.pool.empty() && c.rng.chance(0.15)) return c.pool[c.rng.below(c.pool.size())];
+  Expr e = gen_num_raw(c, depth);
+  if (e.kind == 'o' && e.op != 0 && e.op != 1 && e.op != 54 && c.pool.size() < 8 && c.rng.chance(0.6)) c.pool.push_back(e);
+  return e;
+}
+Expr gen_num_raw(Ctx& c, int depth) {
   if (depth <= 0) return c.rng.chance(0.5) ? leaf(c) : affine(c);
   std::vector<int> choices;
   unsigned f = c.features;
@@ -419,6 +428,7 @@ Model generate(sim::Rng& rng, const GenOptions& opt) {
   }
 
   // ---- objectives
+  c.pool.clear();
   for (int i = 0; i < nobjs; ++i) {
     Obj o;
     o.maximize = rng.chance(0.4);
